@@ -69,7 +69,8 @@ def _dump(d):
 
 
 def _drop_cr(l):
-    """bufio.ScanLines: one trailing CR does not belong to the line"""
+    """the reader (bufio.ScanLines): one CR in front of the newline does not belong to the line; a line that
+    still ends in CR after that is an ordinary line (no exclusion)"""
     return l[:-1] if l and l[-1] == 13 else l
 
 
